@@ -53,11 +53,12 @@ pub fn run_c11(cx: &mut Cx) {
     let b = cx.node("site-b");
     let suite = Suite::from_idx(cx.run_index);
     let l = 1 + cx.ch.choose("L", 6) as usize;
-    let m = 1 + cx.ch.choose("M", 4) as usize;
+    let m = cx.ch.choose("M", 5) as usize; // an empty committed list included
+    let (hk, phk) = (cx.ch.choose("header_kind", 3), cx.ch.choose("ph_kind", 3));
     let seed = cx.run_seed;
     // generator bookkeeping: (suite, api label, count) -> octets, as returned by whichever call
     let seen: Rc<RefCell<BTreeMap<(Suite, u8), Vec<Vec<[u8; 48]>>>>> = Rc::new(RefCell::new(BTreeMap::new()));
-    cx.step(a, "honest-session", StepOpts::default(), move || make_honest(suite, seed, l, m), move |cx, st| {
+    cx.step(a, "honest-session", StepOpts::default(), move || crate::scen_robust::make_honest_with(suite, seed, l, m, hk, phk), move |cx, st| {
         let h = match st.out { Ok(Ok(h)) => Arc::new(h), other => { cx.log(format!("honest session failed: {:?}", other.err())); return; } };
         // complete cross-delivery matrix: 5 artefact kinds x 4 endpoints (own endpoint = control)
         for art in ["signature", "proof", "commitment", "blind_signature", "blind_proof"] {
